@@ -46,6 +46,8 @@ partial def parseExpr (table : Array Expr) (j : Json) : Expr :=
      | _ => .message (jS j "m"))
   | "echo" => .echo
   | "gen" => .plain ["gen".toList]
+  | "regflag" => .plain [("reg" ++ toString (jnat j "n")).toList]
+  | "regprobe" => .plain ((List.range (jnat j "n")).map (fun i => ("v" ++ toString i).toList))
   | "filter" => .filter (jstrs j "xs") inner
   | "filterArgs" => .filterArgs inner
   | "filterParts" => .filterParts inner
@@ -68,6 +70,10 @@ partial def parseExpr (table : Array Expr) (j : Json) : Expr :=
   | "withCtx" => .withCtx ((jarr j "edits").toList.map parseEdit) inner
   | "ref" => table.getD (jnat j "id") (.plain [])
   | "stored" =>
+    let r := invoke inner (parseCtx (jget j "ctx"))
+    .static r.1 r.2
+  | "import" =>
+    -- what was exported is what ActionImport yields, on every invocation (C13 covers the transport itself)
     let r := invoke inner (parseCtx (jget j "ctx"))
     .static r.1 r.2
   | _ => .plain []
